@@ -139,7 +139,7 @@ for nm, b, t, cap in (("1", "all 1-byte header-legal values", "quick", 600), ("2
       functions=["tonic::transport::service::grpc_timeout::try_parse_grpc_timeout", "http::HeaderMap::{insert,get(&str)}"],
       bounds="grpc-timeout value: " + b,
       may_be_uncovered=(["well-formed value parsed"] if nm == "1" else []) + (["well-formed value parsed", "malformed value ignored"] if nm == "absent" else []))
-H("gt_select_min", ["C09"], "transport", *GT, cap_s=3600, mem_gb=26, tier="thorough", optional=True, stubs=[HTTPH, "tokio::time::sleep stubbed: asserts its argument == min(header, configured) and ends the path (no runtime)"],
+H("gt_select_min", ["C09"], "transport", *GT, cap_s=1500, mem_gb=28, tier="quick", stubs=[HTTPH, "tokio::time::sleep stubbed: asserts its argument == min(header, configured) and ends the path (no runtime)"],
   obligation="G4: GrpcTimeout::call arms the timer with min(caller grpc-timeout, configured timeout); no timer when both are absent",
   functions=["GrpcTimeout::call", "try_parse_grpc_timeout"],
   bounds="caller timeout absent / '<digit>S' / '<digit>m' / malformed '<digit>x'; configured timeout: None or any whole milliseconds < 65536",
@@ -292,7 +292,7 @@ H("web_trailers_frame_len_10", ["C17"], "web_vb", *WEB, cap_s=600,
   bounds="all buffers of length 0..=10 (symbolic length)")
 
 for nm, b in (("2_unpadded", "'XX'"), ("2_padded", "'XX=='"), ("3_unpadded", "'XXX'"), ("3_padded", "'XXX='")):
-    H("md_bin_decode_" + nm, ["C08", "C04"], "core", *ME, cap_s=600,
+    H("md_bin_decode_" + nm, ["C08", "C04"], "core", *ME, cap_s=900, mem_gb=16,
       obligation="M3 (read side): Binary::decode accepts a peer's base64 value with and without '=' padding and yields the bytes of an "
                  "arithmetic reference decoder",
       functions=["metadata::encoding::Binary::decode", "tonic::util::base64::STANDARD (DecodePaddingMode::Indifferent)"],
